@@ -123,11 +123,18 @@ def c_timeline(chk, g, drv, jobs):
     tl = gen_timeline(g)
     obj = make_timeline(tl)
     # a *history* of queries on the same object: results must not depend on earlier queries
-    nq = int(g.integers(1, 5))
+    nq = int(g.integers(2, 6))
     for q in range(nq):
         md = int(g.choice([0, 0, 2 ** 12, 5 * 2 ** 12, 2 ** 16]))
         pa = int(g.choice([0, 2 ** 10, 3 * 2 ** 11, 2 ** 13]))
         pb = int(g.choice([0, 2 ** 10, 2 ** 12, 5 * 2 ** 11]))
+        if q % 2 == 1 and len(tl['mets']) >= 2:
+            # threshold-directed query: the minimum duration is placed on (or one tick around) duration − paddings of one of the epochs, so
+            # that "longer than the minimum *plus* the paddings" is decided at its boundary (with zero and non-zero paddings)
+            k = int(g.integers(0, len(tl['mets']) - 1))
+            dur = tl['mets'][k + 1] - tl['mets'][k]
+            if dur - pa - pb > 2:
+                md = dur - pa - pb + int(g.choice([-1, 0, 0, 1]))
         try:
             gl = obj.gti_list(md * TICK, pa * TICK, pb * TICK)
             ol = obj.octi_list(md * TICK, pa * TICK, pb * TICK)
